@@ -283,7 +283,7 @@ def inner_store(var="i", extra=""):
     return FOR("inner", H(var), [RAW("a[%s] = %s;" % (var, var))], extra=extra)
 
 
-def base_kernels():
+def base_kernels(thorough=False):
     K = []
     K.append(("base", KERNEL("base", [FOR("outer", H("o", check="o < N"), [inner_store()])])))
     K.append(("nested-outer", KERNEL("nested_outer", [
@@ -337,6 +337,40 @@ def base_kernels():
     K.append(("dim", KERNEL("dim", [
         FOR("outer", H("o", check="o < N"), [FOR("inner", H("i"), [RAW("m(i, 1) = i;")])])],
         args="const int N, int *a, int *m @dim(4, 2)")))
+    # two structural kernels beyond the C20 feature list: OKL loops in both branches of an if, and under a plain loop
+    K.append(("branch-inner", KERNEL("branch_inner", [
+        FOR("outer", H("o", check="o < N"), [
+            IF("N > 2", [inner_store()], [FOR("inner", H("i2"), [RAW("a[i2] = 0;")])])])])))
+    K.append(("plain-loop-around-inner", KERNEL("plain_loop_around_inner", [
+        FOR("outer", H("o", check="o < N"), [
+            PLAINFOR("int r = 0; r < 2; ++r", [inner_store()])])])))
+    if thorough:
+        K.append(("nested-outer-inner", KERNEL("nested_outer_inner", [
+            FOR("outer", H("o2", check="o2 < N"), [FOR("outer", H("o", check="o < 2"), [
+                FOR("inner", H("j", check="j < 2"), [inner_store()])])])])))
+        K.append(("sibling-outer-shared", KERNEL("sibling_outer_shared", [
+            FOR("outer", H("o", check="o < N"), [
+                DECL("shared", "@shared int s[4];", "s"),
+                FOR("inner", H("i"), [RAW("s[i] = i;", uses=["s"])]),
+                FOR("inner", H("i2"), [RAW("a[i2] = s[i2];", uses=["s"])])]),
+            FOR("outer", H("p", check="p < N"), [FOR("inner", H("i3"), [RAW("a[i3] += p;")])])])))
+        K.append(("exclusive-nested-inner", KERNEL("exclusive_nested_inner", [
+            FOR("outer", H("o", check="o < N"), [
+                DECL("exclusive", "@exclusive int e;", "e", array=False),
+                FOR("inner", H("j", check="j < 2"), [FOR("inner", H("i"), [RAW("e = i + j;", uses=["e"])])]),
+                FOR("inner", H("j2", check="j2 < 2"), [FOR("inner", H("i2"), [RAW("a[i2] = e;", uses=["e"])])])])])))
+        K.append(("branch-nested-inner", KERNEL("branch_nested_inner", [
+            FOR("outer", H("o", check="o < N"), [
+                IF("N > 2",
+                   [FOR("inner", H("j", check="j < 2"), [inner_store()])],
+                   [FOR("inner", H("j2", check="j2 < 2"), [FOR("inner", H("i2"), [RAW("a[i2] = 0;")])])])])])))
+        K.append(("tile-and-plain-outer", KERNEL("tile_and_plain_outer", [
+            FOR(("tile", "outer", "inner"), H("i", check="i < N"), [RAW("a[i] = i;")]),
+            FOR("outer", H("p", check="p < N"), [FOR("inner", H("i3"), [RAW("a[i3] += p;")])])])))
+        K.append(("while-around-inner", KERNEL("while_around_inner", [
+            FOR("outer", H("o", check="o < N"), [
+                RAW("int t = 0;"),
+                WHILE("t < 2", [inner_store(), RAW("++t;")])])])))
     return K
 
 
@@ -476,8 +510,8 @@ def insertables():
     ]
 
 
-def programs():
-    """yields dicts: name, base, edit, text, broken (list), unjudged (list)"""
+def programs(thorough=False):
+    """list of dicts: name, base, edit, text, broken (list), unjudged (list)"""
     out = []
     seen = set()
 
@@ -490,7 +524,7 @@ def programs():
         out.append({"name": "%s|%s" % (base, edit), "base": base, "edit": edit, "text": text,
                     "broken": broken, "unjudged": unjudged})
 
-    bases = base_kernels()
+    bases = base_kernels(thorough)
     for bname, k0 in bases:
         emit(bname, "none", k0)
     for bname, k0 in bases:
@@ -586,7 +620,7 @@ def programs():
 
 if __name__ == "__main__":
     import sys
-    ps = programs()
+    ps = programs("--thorough" in sys.argv)
     nb = sum(1 for p in ps if p["broken"])
     nu = sum(1 for p in ps if p["unjudged"] and not p["broken"])
     print(len(ps), "programs;", nb, "rule-breaking;", nu, "unjudged;", len(ps) - nb - nu, "valid")
